@@ -44,6 +44,7 @@ type c31Scenario struct {
 	arrivals  []c31Arrival
 	producers int
 	failures  bool // upstream write/dial failures are explorer choices
+	addrs     int  // resolved upstream addresses, split by the real newAddressPools (0 = 2)
 }
 
 func c31Scenarios(thorough bool) []c31Scenario {
@@ -75,6 +76,13 @@ func c31Scenarios(thorough bool) []c31Scenario {
 	}
 	twice := append(append(burst(2*bufferLen+3), c31Arrival{gap: 3000 * ms}), burst(2*bufferLen+2)...)
 	out = append(out, c31Scenario{heavy: true, name: "two refusal episodes (burst, 3s idle, burst)", arrivals: twice})
+	// the number of resolved upstream addresses decides how newAddressPools splits them: with one address the
+	// secondary sender has an empty pool, with three the primary rotates over two
+	out = append(out,
+		c31Scenario{heavy: true, name: "one upstream address: burst over one buffer then idle", addrs: 1, arrivals: burst(bufferLen + 2)},
+		c31Scenario{heavy: true, name: "one upstream address: burst filling both buffers", addrs: 1, arrivals: burst(2*bufferLen + 5)},
+		c31Scenario{name: "three upstream addresses: sparse 3 x 300ms", addrs: 3, arrivals: g(0, 300*ms, 300*ms)},
+	)
 	two := c31Scenario{name: "two producers", producers: 2, arrivals: []c31Arrival{{0, 0}, {0, 1}, {300 * ms, 0}, {0, 1}}}
 	out = append(out, two)
 	if thorough {
@@ -191,9 +199,18 @@ func c31RunScenario(x *mc.Exec, sc c31Scenario, rep *mc.Report) mc.Verdict {
 		cfg.fillDefaults()
 		e := &Egress{cfg: cfg}
 		eg = e
+		nAddrs := sc.addrs
+		if nAddrs == 0 {
+			nAddrs = 2
+		}
+		var resolved []string
+		for i := 1; i <= nAddrs; i++ {
+			resolved = append(resolved, fmt.Sprintf("up%d", i))
+		}
+		primaryPool, secondaryPool := newAddressPools(resolved)
 		e.pool = &tcpPool{
-			primary:   newTCPSender(cfg, &e.stats, addressPool{addrs: []string{"up1"}}, newPktBuffer()),
-			secondary: newTCPSender(cfg, &e.stats, addressPool{addrs: []string{"up2"}}, newPktBuffer()),
+			primary:   newTCPSender(cfg, &e.stats, primaryPool, newPktBuffer()),
+			secondary: newTCPSender(cfg, &e.stats, secondaryPool, newPktBuffer()),
 			closed:    make(chan struct{}),
 		}
 		e.pool.primPtr = &e.pool.primary
